@@ -503,3 +503,31 @@ def _state_update(ctx, rule, sc, hp, sp):
         return
     if found == 0:
         ctx.undecided(rule, sc, None, construct=f"{sc.name}:state-update-frames", detail="no matrix product defining the new distortion found")
+
+
+def run_frames_state_only(ctx, rule, quals):
+    for q, hp, sp in STATE_UPDATES:
+        if q in quals:
+            _state_update(ctx, rule, ctx.need(q), hp, sp)
+    for q, binds, expect in TARGETS:
+        if any(q.split(":")[0] == x.split(":")[0] for x in quals) and expect != "scalar":
+            sc = ctx.need(q)
+            fe = FrameEval(ctx, sc, {}, rule)
+            for p in sc.params():
+                k = binds.get(p)
+                if k == "H":
+                    fe.env[p] = H_VALUE()
+                elif k == "state:P":
+                    fe.env[p] = NC.letter("P")
+            try:
+                v = _run_with_state(fe, sc)
+                ty = fe.poly_type(v, sc.node, "result") if isinstance(v, NC) else None
+            except FrameError as ex:
+                ctx.refuted(rule, sc, ex.node, construct=f"{sc.name}:frames", detail=ex.msg)
+                continue
+            except (Unknown, NotPolynomial, KeyError) as ex:
+                ctx.undecided(rule, sc, None, construct=f"{sc.name}:frames", detail=f"expression outside the frame calculus: {ex}")
+                continue
+            ok = ty is not None and (ty == tuple(expect) or ty == ("*", "*"))
+            ctx.decide(rule, ok, sc, None, construct=f"{sc.name}:result-frames", detail=f"result has frames {ty}",
+                       bad_detail=f"{sc.name} returns a tensor with frames {ty}, expected {expect}: it would change under a superposed rotation")
